@@ -55,8 +55,9 @@ type lMsg struct {
 
 type lReset struct {
 	Op       string `json:"op"`
-	Observed bool   `json:"observed"` // true: the counters were seen dropping to 0; false: all were 0 already, slept one interval
-	Timeout  bool   `json:"timeout,omitempty"`
+	Observed    bool `json:"observed"`              // the sentinel counters of all procedures were seen dropping to 0
+	Spontaneous bool `json:"spontaneous,omitempty"` // not a scripted reset: a tick was detected in the middle of a burst
+	Timeout     bool `json:"timeout,omitempty"`
 }
 
 type lRec struct {
@@ -65,9 +66,13 @@ type lRec struct {
 	Procs []lProc       `json:"procs"`
 	Peers []lPeer       `json:"peers"`
 	Steps []interface{} `json:"steps"`
+	Truncated bool       `json:"truncated,omitempty"` // the script was cut at a message whose interval was ambiguous
 	Panic string        `json:"panic,omitempty"`
 	Err   string        `json:"err,omitempty"`
 }
+
+// fixed valid peer id of the sentinel peer (never appears in a record)
+const sentinelPeerID = "12D3KooWGRUVh6eFcXSB5VCQh9s2MbTB9fKq3x2DVFmkvQyi5kdH"
 
 func procName(i int) string { return fmt.Sprintf("p%d", i) }
 
@@ -110,30 +115,61 @@ func runLimiter(sc lScript) (rec lRec) {
 		return rec
 	}
 	defer n.Close()
-	lastTick := time.Now() // the reset ticker has just been created
-
-	anyNonZero := func() bool {
-		site = "LimiterCounter"
+	// Tick detection without timing assumptions: a sentinel peer (own peer ID and IP, not part of the record) sends ONE
+	// message per procedure right after every reset. rateLimiterHandler replaces the counter map of a procedure under that
+	// procedure's mutex, so "sentinel counter of procedure p is still 1" == "no reset of p since the last bump". A recorded
+	// message is kept only if the sentinel of its procedure is alive both before and after it; a tick in between is
+	// recorded as a (spontaneous) reset step, an ambiguous message ends the script (the prefix stays valid).
+	sentinel, err := peer.Decode(sentinelPeerID)
+	if err != nil {
+		rec.Err = err.Error()
+		return rec
+	}
+	sentinelAddr := fmt.Sprintf("/ip4/10.254.%d.%d/tcp/4001", (sc.ID/250)%250, sc.ID%250+1)
+	bump := func() {
+		site = "LimiterMessage(sentinel)"
 		for pi := range sc.Procs {
-			for _, id := range pids {
-				if n.LimiterCounter(procName(pi), id) != 0 {
-					return true
-				}
+			_ = n.LimiterMessage(procName(pi), sentinel, sentinelAddr)
+		}
+	}
+	alive := func(pi int) bool {
+		site = "LimiterCounter(sentinel)"
+		return n.LimiterCounter(procName(pi), sentinel) >= 1
+	}
+	allDead := func() bool {
+		for pi := range sc.Procs {
+			if alive(pi) {
+				return false
 			}
+		}
+		return true
+	}
+	waitReset := func() bool {
+		deadline := time.Now().Add(3 * time.Second)
+		for time.Now().Before(deadline) {
+			if allDead() {
+				return true
+			}
+			time.Sleep(2 * time.Millisecond)
 		}
 		return false
 	}
+	bump()
 
 	for _, st := range sc.Steps {
 		switch st.Op {
 		case "msg":
-			// a burst must start right after a tick; if we are late (scheduling hiccup) skip to the next estimated tick
-			if time.Since(lastTick) > 250*time.Millisecond {
-				for time.Since(lastTick) > 250*time.Millisecond {
-					lastTick = lastTick.Add(limiterInterval)
+			if !alive(st.Proc) {
+				// a tick has happened since the last bump: make it explicit
+				ok := waitReset()
+				rec.Steps = append(rec.Steps, lReset{Op: "reset", Observed: ok, Spontaneous: true, Timeout: !ok})
+				if !ok {
+					return rec
 				}
-				if d := time.Until(lastTick.Add(30 * time.Millisecond)); d > 0 {
-					time.Sleep(d)
+				bump()
+				if !alive(st.Proc) {
+					rec.Truncated = true
+					return rec
 				}
 			}
 			now := time.Now().Unix()
@@ -143,6 +179,11 @@ func runLimiter(sc lScript) (rec lRec) {
 			c := n.LimiterCounter(procName(st.Proc), pids[st.Peer])
 			site = "Score"
 			score, exp, ok := n.Score(sc.Peers[st.Peer].IP)
+			if !alive(st.Proc) {
+				// the reset of this procedure fell somewhere around the message: ambiguous, stop here
+				rec.Truncated = true
+				return rec
+			}
 			e := ""
 			if err != nil {
 				e = err.Error()
@@ -150,28 +191,12 @@ func runLimiter(sc lScript) (rec lRec) {
 			rec.Steps = append(rec.Steps, lMsg{Op: "msg", Proc: st.Proc, Peer: st.Peer, Now: now, Err: e, CounterAfter: c,
 				ScoreAfter: score, ExpAfter: exp, HasEntry: ok})
 		case "reset":
-			if anyNonZero() {
-				deadline := time.Now().Add(2 * time.Second)
-				seen := false
-				for time.Now().Before(deadline) {
-					if !anyNonZero() {
-						seen = true
-						break
-					}
-					time.Sleep(5 * time.Millisecond)
-				}
-				lastTick = time.Now()
-				rec.Steps = append(rec.Steps, lReset{Op: "reset", Observed: seen, Timeout: !seen})
-			} else {
-				// nothing to observe: wait for the estimated next tick + 50 ms
-				next := lastTick.Add(limiterInterval)
-				for time.Until(next.Add(50*time.Millisecond)) < 0 {
-					next = next.Add(limiterInterval)
-				}
-				time.Sleep(time.Until(next.Add(50 * time.Millisecond)))
-				lastTick = next
-				rec.Steps = append(rec.Steps, lReset{Op: "reset", Observed: false})
+			ok := waitReset()
+			rec.Steps = append(rec.Steps, lReset{Op: "reset", Observed: ok, Timeout: !ok})
+			if !ok {
+				return rec
 			}
+			bump()
 		}
 	}
 	return rec
